@@ -145,6 +145,71 @@ def rng_rules(chk):
         chk.violation(R, inst, F.where(), 'the generator is marked seeded without the entropy being mixed in', key='%s inject-order' % R)
 
 
+def iv_field_writers(chk):
+    """Record-layer IV state (CBC chaining value of TLS 1.0 / base of the per-record CBC IV; implicit nonce part of GCM, CCM, ChaCha20):
+    it is installed from the key block by the *_init function of its context and after that only read, or -- for CBC -- handed to the
+    block cipher run(), which leaves the last ciphertext block there.  Any other write lets record data or constants replace it; in
+    CBC the explicit IV block is encrypted under that chaining value, so a write of the IV block itself cancels out and every record
+    carries the same IV.  Who-may-write rule over the four record modules."""
+    R = 'record-iv-writers'
+    n = 0
+    nw = 0
+    for src in ('src/ssl/ssl_rec_cbc.c', 'src/ssl/ssl_rec_gcm.c', 'src/ssl/ssl_rec_ccm.c', 'src/ssl/ssl_rec_chapol.c'):
+        u = build.load_unit(src)
+        L = irf.Layouts(u)
+        for f in u['functions']:
+            if not f.get('blocks') or not f['params']:
+                continue
+            st = wmw.ptr_struct(f['params'][0]['ty'])
+            if not st or 'sslrec' not in st:
+                continue
+            fl = L.field(st, 'iv')
+            if fl is None:
+                continue
+            F = irf.Func(u, f)
+            lo, hi = fl[0], fl[0] + fl[1]
+            is_init = F.name.endswith('_init')
+
+            def in_iv(o):
+                if o['k'] not in ('i',):
+                    return False
+                b, off = F.addr_of(o)
+                return b == {'k': 'a', 'v': 0} and off is not None and lo <= off < hi
+            for i in F.insts.values():
+                what = None
+                if i['op'] == 'store' and in_iv(i['ops'][1]):
+                    what = 'a store'
+                elif i['op'] == 'call':
+                    c = i.get('callee') or ''
+                    if c.startswith(('llvm.memcpy', 'llvm.memset', 'llvm.memmove')):
+                        if in_iv(i['ops'][0]):
+                            what = c.split('.')[1]
+                        elif len(i['ops']) > 1 and in_iv(i['ops'][1]):
+                            n += 1
+                            chk.ok(R, '%s: reads the IV (copy source)' % F.name, F.where(i))
+                            continue
+                    elif c.startswith('llvm.'):
+                        continue
+                    elif any(in_iv(o) for o in i['ops']):
+                        if i.get('callee') is None and 'cbc' in st and [k for k, o in enumerate(i['ops']) if in_iv(o)] == [1]:
+                            n += 1
+                            chk.ok(R, '%s: IV handed to the block cipher run() as chaining value' % F.name, F.where(i))
+                            continue
+                        what = 'a call to %s() receiving its address' % (i.get('callee') or 'an indirect target')
+                if what is None:
+                    continue
+                n += 1
+                nw += 1
+                inst = '%s: %s into %s.iv' % (F.name, what, st)
+                if is_init:
+                    chk.ok(R, inst + ' (installation from key material)', F.where(i))
+                else:
+                    chk.violation(R, inst, F.where(i), 'only the *_init function of the context may write the IV state; this write replaces the chaining value / '
+                                  'implicit nonce during record processing', key='%s %s' % (R, F.name))
+    chk.floor('IV field accesses', n, 13)
+    chk.floor('IV field writers', nw, 7)
+
+
 def seed_all_bytes(chk):
     """"different seeds give different streams": every byte of an injected seed must reach the DRBG.  Decided part: with the seed
     length fixed to K, a single (non-looping) DRBG update whose length folds to a constant below K necessarily drops seed bytes."""
@@ -339,6 +404,7 @@ def run(tier):
     rng_rules(chk)
     seeder_rules(chk)
     seed_all_bytes(chk)
+    iv_field_writers(chk)
     seq_rules(chk)
     seq_encoding(chk)
     return chk.finish()
